@@ -58,7 +58,7 @@ def generate_big_pairwise(rng):
 
 def generate(run_seed, tier):
     rng = stream(run_seed, "gen")
-    case = generate_big_pairwise(rng) if rng.random() < 0.004 else G.gen_rule_case(rng, rules=RULES, max_c=6, pairwise_ties=True)
+    case = generate_big_pairwise(rng) if rng.random() < 0.004 else G.gen_rule_case(rng, rules=RULES, max_c=6, pairwise_ties=True, level=0.2)
     if "transfer" in case["kw"]:
         case["kw"]["transfer"] = "fractional"
     n = len(case["profile"]["candidates"])
